@@ -287,7 +287,7 @@ func (c17) ID() string     { return "C17" }
 func (c17) Level() string  { return "exploration" }
 func (c17) QuickRuns() int { return 120000 }
 func (c17) Rule() string {
-	return "RunTraceroute and the HTTP handler with skip-private-hops over simulated topologies whose routers answer from every private block edge (10/8, 172.16/12, 192.168/16, fc00::/7 first/last addresses), the adjacent public addresses, and IPv4-mapped IPv6 sources (which only the real parser path can produce), with and without concurrent reverse-DNS enrichment (names, empty, errors, slow); the JSON output is compared hop by hop with the ledger: private responder => TTL only; public responder => address, reachability and names untouched; hop count unchanged; non-trivial = at least one private responder was read; distinct = distinct shapes. Modest claim: documents are those the real pipeline produces, not all documents"
+	return "RunTraceroute and the HTTP handler with skip-private-hops over simulated topologies whose routers answer from every private block edge (10/8, 172.16/12, 192.168/16, fc00::/7 first/last addresses), the adjacent public addresses, and IPv4-mapped IPv6 sources (which only the real parser path can produce), in 30% of the requests towards a destination that is itself private (the destination-marked hop must be redacted too), with and without concurrent reverse-DNS enrichment (names, empty, errors, slow); the JSON output is compared hop by hop with the ledger: private responder => TTL only; public responder => address, reachability and names untouched; hop count unchanged; non-trivial = at least one private responder was read; distinct = distinct shapes. Modest claim: documents are those the real pipeline produces, not all documents"
 }
 func (c17) Assumptions() []string {
 	return []string{"private = 10/8, 172.16/12, 192.168/16, fc00::/7, including IPv4-mapped forms (the property's list); link-local, CGNAT and loopback are not private"}
@@ -304,7 +304,7 @@ func isPrivateSpec(a netip.Addr) bool {
 }
 
 func (c17) Gen(rng *rand.Rand, tier string, i int) *sim.Scenario {
-	o := requestOpts{protocols: []string{"udp", "udp6", "icmp", "icmp6", "tcp-syn"}, queriesMin: 1, queriesMax: 3, e2eMax: 1, reverseDNS: 0.5, skipPrivate: 0.9, privateHops: true, silentProb: 0.15}
+	o := requestOpts{protocols: []string{"udp", "udp6", "icmp", "icmp6", "tcp-syn"}, queriesMin: 1, queriesMax: 3, e2eMax: 1, reverseDNS: 0.5, skipPrivate: 0.9, privateHops: true, silentProb: 0.15, privateTarget: 0.3}
 	sc := genRequestScenario("C17", rng, o)
 	if chance(rng, 0.35) {
 		sc.Calls[0].Entry = "http_handler"
@@ -421,6 +421,9 @@ func (c17) Check(out *sim.Outcome, ri *RunInfo) []Violation {
 				x.private = true
 				ri.NonTrivial = true
 				ri.probe("private-hop")
+				if h.Dest {
+					ri.probe("private-destination-hop")
+				}
 				if h.Addr.Is4In6() {
 					ri.probe("private-hop-ipv4-mapped")
 				}
